@@ -121,6 +121,10 @@ func (f *RequiredField) DoRead(r io.ReadSeeker, pg Page) (io.Reader, []int, erro
 			return nil, nil, err
 		}
 
+		if err := checkPageHeader(ph); err != nil {
+			return nil, nil, err
+		}
+
 		sizes = append(sizes, int(ph.DataPageHeader.NumValues))
 
 		data, err := pageData(r, ph, pg)
@@ -285,19 +289,27 @@ func (f *OptionalField) DoRead(r io.ReadSeeker, pg Page) (io.Reader, []int, erro
 			return nil, nil, err
 		}
 
+		if err := checkPageHeader(ph); err != nil {
+			return nil, nil, err
+		}
+
 		data, err := pageData(rc, ph, pg)
 		if err != nil {
 			return nil, nil, err
 		}
 
 		var l int
+		nVals := int(ph.DataPageHeader.NumValues)
 
 		if f.repeated {
 			reps, l2, err := readLevels(bytes.NewBuffer(data[l:]), int32(bits.Len(uint(f.MaxLevels.Rep))))
 			if err != nil {
 				return nil, nil, err
 			}
-			f.Reps = append(f.Reps, reps[:int(ph.DataPageHeader.NumValues)]...)
+			if nVals > len(reps) || l+l2 > len(data) {
+				return nil, nil, fmt.Errorf("page of %d values has %d repetition levels", nVals, len(reps))
+			}
+			f.Reps = append(f.Reps, reps[:nVals]...)
 			l += l2
 		}
 
@@ -305,7 +317,10 @@ func (f *OptionalField) DoRead(r io.ReadSeeker, pg Page) (io.Reader, []int, erro
 		if err != nil {
 			return nil, nil, err
 		}
-		f.Defs = append(f.Defs, defs[:int(ph.DataPageHeader.NumValues)]...)
+		if nVals > len(defs) || l+l2 > len(data) {
+			return nil, nil, fmt.Errorf("page of %d values has %d definition levels", nVals, len(defs))
+		}
+		f.Defs = append(f.Defs, defs[:nVals]...)
 		l += l2
 
 		n := f.valsFromDefs(defs, uint8(f.MaxLevels.Def))
@@ -353,6 +368,18 @@ func (r *readCounter) Read(p []byte) (int, error) {
 	n, err := r.r.Read(p)
 	r.n += int64(n)
 	return n, err
+}
+
+// checkPageHeader rejects page headers that the reader cannot use: the
+// counts and sizes come from the file and are not trusted.
+func checkPageHeader(ph *sch.PageHeader) error {
+	if ph.DataPageHeader == nil {
+		return fmt.Errorf("unsupported page type: %s", ph.Type)
+	}
+	if ph.DataPageHeader.NumValues < 0 || ph.CompressedPageSize < 0 || ph.UncompressedPageSize < 0 {
+		return fmt.Errorf("invalid page header: %d values, %d/%d bytes", ph.DataPageHeader.NumValues, ph.CompressedPageSize, ph.UncompressedPageSize)
+	}
+	return nil
 }
 
 func pageData(r io.Reader, ph *sch.PageHeader, pg Page) ([]byte, error) {
